@@ -26,7 +26,11 @@ Structure of the check (hash-seed variation needs fresh interpreters):
                 be refused, neither at hook creation nor while structuring;
             C   correspondence: implementation outcome == model outcome, per (layout, order, seed, payload).
 
-Layouts with rename overrides are custom configuration (outside C12): only the correspondence is evaluated on them.
+Layouts with rename overrides (10 %): the members' OWN hooks are made with make_dict_(un)structure_fn + override(rename=...)
+and registered; the union hook is still the automatic one (the disambiguator reads the `overrides` of the members' hooks).
+60 % of them (15 % of the others) have PRIVATE attributes (`_a`: attrs alias `a` != name; mostly renamed to the
+underscore-free key, which another member may use for a public attribute) and explicit `alias=` attributes.  All oracles
+apply to them (told-apart is judged on the payload KEYS).
 """
 from __future__ import annotations
 
@@ -120,8 +124,10 @@ def _worker_realise(L, tag):
             for f in c["fields"]:
                 ty = pyty(f)
                 kw = {"init": False} if f.get("init") is False else {}
+                if f.get("alias"):
+                    kw["alias"] = f["alias"]        # explicit `alias=` (the __init__ parameter; dict keys stay the NAME)
                 if f["dflt"] == "req":
-                    attribs[f["name"]] = attr.ib(type=ty)
+                    attribs[f["name"]] = attr.ib(type=ty, **kw)
                 elif f["dflt"] == "const":      # a plain object as default VALUE (possibly unhashable: [] {} Pt(0, 0))
                     attribs[f["name"]] = attr.ib(type=ty, default=_worker_val(ety(f), f["dv"]), **kw)
                 elif f["dflt"] == "self":       # `@x.default def _(self): ...`
@@ -149,6 +155,14 @@ def _worker_realise(L, tag):
 
 def _field(c, name):
     return next(f for f in c["fields"] if f["name"] == name)
+
+
+def init_name(c, f):
+    """the `__init__` parameter of an attribute: attrs strips the leading underscores of a private name (or takes the
+    explicit `alias=`); a dataclass keeps the name"""
+    if c["kind"] != "attrs":
+        return f["name"]
+    return f.get("alias") or f["name"].lstrip("_")
 
 
 def _worker_converter(L, classes):
@@ -180,7 +194,8 @@ def _worker_layout(L, tag):
         cl = classes[pl["member"]]
         c = L["classes"][pl["member"]]
         tys = {f["name"]: (c["generic"]["arg"] if f.get("ty") in ("T", "listT") else f.get("ty", "int")) for f in c["fields"]}
-        x = cl(**{k: ([_worker_val(tys[k], e) for e in v] if _field(c, k).get("ty") == "listT" else _worker_val(tys[k], v))
+        x = cl(**{init_name(c, _field(c, k)): ([_worker_val(tys[k], e) for e in v] if _field(c, k).get("ty") == "listT"
+                                                 else _worker_val(tys[k], v))
                   for k, v in pl["args"].items()})
         # (a parametrised member is unstructured AS the member: a bare generic instance carries no type arguments)
         u = cu.unstructure(x, unstructure_as=members_ty[pl["member"]]) if c.get("generic") else cu.unstructure(x)
@@ -354,6 +369,23 @@ def gen_layout(rng, lid, tier):
             classes[a]["fields"].append({"name": g["name"], "key": g["name"], "lit": None,
                                          "dflt": rng.choice(["const", "factory", "self"] if kind == "attrs" else ["const", "factory"]),
                                          "dv": rng.choice([0, 1, 2]), "init": False})
+    # PRIVATE attributes (`_a`: attrs derives the alias `a`, so alias != name; a dataclass keeps `_a`) and explicit
+    # `alias=` on attrs attributes.  The dict key is the NAME unless renamed; in rename layouts a private attribute is
+    # mostly renamed to its underscore-free spelling (the usual reason for the rename), i.e. onto the key another member
+    # may use for its public attribute of that name.
+    if rng.random() < (0.6 if renames else 0.15):
+        for c in classes:
+            names_c = {f["name"] for f in c["fields"]}
+            for f in c["fields"]:
+                if f["lit"] is not None:
+                    continue
+                old = f["name"]
+                if rng.random() < 0.5 and "_" + old not in names_c:
+                    f["name"] = "_" + old
+                    if f["key"] == old and not (renames and rng.random() < 0.7):
+                        f["key"] = f["name"]
+                elif c["kind"] == "attrs" and rng.random() < 0.15:
+                    f["alias"] = "al_" + old
     conv0 = rng.choice(["gen", "base"] if init_false else ["gen", "gen", "base"])
     L = {"id": lid, "conv": conv or conv0, "has_none": has_none,
          "renames": renames, "classes": classes}
@@ -528,14 +560,15 @@ def told_apart(L):
     cs = L["classes"]
     n = len(cs)
     names = [{f["name"] for f in c["fields"]} for c in cs]
+    keys = [{f["key"] for f in c["fields"]} for c in cs]         # what the payloads carry (= the names unless renamed)
     for nm in sorted(set.intersection(*names)) if n >= 2 else []:
         lits = [_field(c, nm)["lit"] for c in cs]
         if all(l is not None for l in lits) and all(not (set(a) & set(b)) for a, b in itertools.combinations(lits, 2)):
             return f"the literal-valued field {nm!r}"
     without = 0
     for i, c in enumerate(cs):
-        others = set().union(*[names[j] for j in range(n) if j != i]) if n > 1 else set()
-        if not any(f["dflt"] == "req" and f.get("init") is not False and f["name"] not in others for f in c["fields"]):
+        others = set().union(*[keys[j] for j in range(n) if j != i]) if n > 1 else set()
+        if not any(f["dflt"] == "req" and f.get("init") is not False and f["key"] not in others for f in c["fields"]):
             without += 1
     return "unique required fields (single fallback)" if without <= 1 else None
 
@@ -628,6 +661,8 @@ def layout_source(L):
                      f" = attrs.field(init=False, factory=lambda: {dv})" if c["kind"] == "attrs" else
                      f" = dataclasses.field(init=False, default_factory=lambda: {dv})")
             rn = f"   # renamed to {f['key']!r}" if f["key"] != f["name"] else ""
+            if f.get("alias"):
+                rn += f"   # attrs.field(alias={f['alias']!r})"
             lines.append(f"    {f['name']}: {ty}{d}{rn}")
     lines.append(f"# converter: {'Converter' if L['conv'] == 'gen' else 'BaseConverter'}(); None member: {L['has_none']}")
     return "\n".join(lines)
@@ -638,13 +673,13 @@ def fixed_layouts():
     def fld(name, lit=None, dflt="req", dv=None, key=None):
         return {"name": name, "key": key or name, "lit": lit, "dflt": dflt, "dv": dv}
 
-    def mk(lid, classes, payloads, has_none=False, conv="gen"):
+    def mk(lid, classes, payloads, has_none=False, conv="gen", renames=False):
         n = len(classes)
         perms = [list(p) for p in itertools.permutations(range(n))]
         if has_none:
             for i, p in enumerate(perms):
                 p.insert(i % (n + 1), -1)
-        return {"id": lid, "conv": conv, "has_none": has_none, "renames": False, "classes": classes,
+        return {"id": lid, "conv": conv, "has_none": has_none, "renames": renames, "classes": classes,
                 "payloads": payloads, "orders": perms}
 
     def full(m, **args):
@@ -706,6 +741,16 @@ def fixed_layouts():
                         {"kind": "dc", "fields": [gfld("f", ty="dpt", dflt="factory", dv={"x": 1, "y": 1})]}],
                   [full(0, a=1), full(0, a=1, b={"x": 1, "y": 2}, c=[1]), full(1, d=2), full(1, d=2, e={"p": 1}), full(2)],
                   has_none=True))
+    # theorem C12_private_rename_witness on the real code: a PRIVATE attribute renamed (through the member's own hooks) onto
+    # the key another member uses -- Account{_a -> "a"} | Token{a, b=0}: nothing tells them apart, refused (never Token for
+    # an Account); Session{_a -> "a"} | User{a, c}: User has `c` of its own, Session is the fallback, both come back
+    for lid, conv, kind in ((-16, "gen", "attrs"), (-17, "base", "dc")):
+        out.append(mk(lid, [{"kind": "attrs", "fields": [fld("_a", key="a")]},
+                            {"kind": kind, "fields": [fld("a"), fld("b", dflt="const", dv=0)]}],
+                      [full(0, _a=2), full(1, a=1), full(1, a=1, b=2)], conv=conv, renames=True, has_none=lid == -17))
+    out.append(mk(-18, [{"kind": "attrs", "fields": [fld("_a", key="a")]},
+                        {"kind": "dc", "fields": [fld("a"), fld("c")]}],
+                  [full(0, _a=2), full(1, a=1, c=2)], renames=True))
     return out
 
 
@@ -727,10 +772,11 @@ def evaluate(chk, drv, layouts, wres, seeds, count=True):
             oracle_fail.append((L, "order/seed-dependence", "unstructured forms differ between hash seeds"))
             continue
         n = len(L["classes"])
-        # ---- oracle on the implementation (not for rename layouts: custom configuration, outside C12)
-        if not L["renames"]:
-            for what, detail in judge(L, wres, seeds)[:3]:
-                oracle_fail.append((L, what, detail))
+        # ---- oracle on the implementation.  Rename layouts too: the quantifier of C12 names "renames" -- the MEMBERS'
+        # hooks carry the renames (make_dict_(un)structure_fn + override(rename=...), read by the disambiguator from the
+        # hooks' `overrides`), the UNION hook is still obtained without custom configuration.
+        for what, detail in judge(L, wres, seeds)[:3]:
+            oracle_fail.append((L, what, detail))
         # ---- correspondence
         shared = len({json.dumps(u, sort_keys=True) for u in payloads if u is not None}) < sum(u is not None for u in payloads)
         for oi, order in enumerate(L["orders"]):
@@ -764,7 +810,11 @@ def evaluate(chk, drv, layouts, wres, seeds, count=True):
                      "generic-members:" + str(min(3, sum(1 for c in L["classes"] if c.get("generic")))),
                      "unhashable-default-values:" + ("yes" if any(
                          f["dflt"] == "const" and f.get("ty", "int") in UNHASHABLE for c in L["classes"] for f in c["fields"]) else "no"),
-                     "told-apart:" + (str(told_apart(L)).split(" ")[0] if not L["renames"] else "n/a"))
+                     "told-apart:" + str(told_apart(L)).split(" ")[0],
+                     "private-attrs:" + ("renamed" if any(f["name"].startswith("_") and f["key"] != f["name"] for c in L["classes"]
+                                                          for f in c["fields"])
+                                         else "yes" if any(f["name"].startswith("_") for c in L["classes"] for f in c["fields"]) else "no"),
+                     "explicit-alias:" + ("yes" if any(f.get("alias") for c in L["classes"] for f in c["fields"]) else "no"))
             for c in L["classes"]:
                 chk.note("kind:" + c["kind"])
             if len(chk.samples) < 5:
@@ -1016,7 +1066,7 @@ def replay(case):
         M = model_query(drv, L, order, R0["payloads"])
         row = {s: wres[s]["results"][str(L["id"])]["orders"][oi]["out"] for s in seeds}
         print(f"order {order}: model={M['out']} " + " ".join(f"seed{s}={[canon(c) for c in r]}" for s, r in row.items()))
-    bad = judge(L, wres, seeds) if not L["renames"] else []
+    bad = judge(L, wres, seeds)
     for what, detail in bad[:10]:
         print("oracle FAILS:", what, detail)
         rc = 1
